@@ -635,6 +635,20 @@ type Message struct {
 	ciphertext, b64ciphertext []byte
 	protected, b64protected   []byte
 	tag, b64tag               []byte
+	aad, b64aad               []byte // JWE AAD; it exists only in the JSON serialization
+}
+
+// authData returns the Additional Authenticated Data encryption parameter
+// defined in RFC 7516 Section 5.1 step 14.
+func (msg *Message) authData() []byte {
+	if len(msg.b64aad) == 0 {
+		return msg.b64protected
+	}
+	data := make([]byte, 0, len(msg.b64protected)+1+len(msg.b64aad))
+	data = append(data, msg.b64protected...)
+	data = append(data, '.')
+	data = append(data, msg.b64aad...)
+	return data
 }
 
 type Recipient struct {
@@ -853,7 +867,7 @@ func (msg *Message) Decrypt(finder KeyWrapperFinder) (plaintext []byte, err erro
 			return nil, errors.New("jwa: requested content encryption algorithm " + string(enc0) + " is not available")
 		}
 		enc := enc0.New()
-		plaintext, err := enc.Decrypt(cek, msg.iv, msg.b64protected, msg.ciphertext, msg.tag)
+		plaintext, err := enc.Decrypt(cek, msg.iv, msg.authData(), msg.ciphertext, msg.tag)
 		if err != nil {
 			return nil, fmt.Errorf("jwe: failed to decrypt: %w", err)
 		}
@@ -972,6 +986,9 @@ func (msg *Message) Compact() ([]byte, error) {
 	}
 	if msg.UnprotectedHeader != nil {
 		return nil, errors.New("jwe: unprotected header is not allowed in compact serialization")
+	}
+	if len(msg.b64aad) != 0 {
+		return nil, errors.New("jwe: aad is not allowed in compact serialization")
 	}
 	r := msg.Recipients[0]
 	if r.header != nil {
@@ -1268,6 +1285,7 @@ func (msg *Message) MarshalJSON() ([]byte, error) {
 		})
 	}
 	raw := jsonJWE{
+		AAD:         string(msg.b64aad),
 		Unprotected: unprotected,
 		Protected:   string(msg.b64protected),
 		IV:          string(msg.b64iv),
@@ -1353,6 +1371,11 @@ func ParseJSON(data []byte) (*Message, error) {
 	if err != nil {
 		return nil, err
 	}
+	b64aad := []byte(raw.AAD)
+	aad, err := b64Decode(b64aad)
+	if err != nil {
+		return nil, err
+	}
 
 	if raw.Recipients == nil {
 		// the flattened syntax: the message has exactly one recipient,
@@ -1397,6 +1420,8 @@ func ParseJSON(data []byte) (*Message, error) {
 		b64protected:      b64protected,
 		tag:               tag,
 		b64tag:            b64tag,
+		aad:               aad,
+		b64aad:            b64aad,
 		Recipients:        recipients,
 	}, nil
 }
